@@ -42,6 +42,9 @@ pub fn catch<T>(f: impl FnOnce() -> T) -> Result<T, String> {
 }
 
 pub fn silence_panics() {
+    if std::env::var("VERIF_SHOW_PANICS").is_ok() {
+        return;
+    }
     panic::set_hook(Box::new(|_| {}));
 }
 
